@@ -29,6 +29,48 @@ from ..core.types import Capability
 # Safety limits
 MAX_EXPRESSION_LENGTH = 10000  # Characters
 MAX_AST_DEPTH = 50  # Nesting levels
+MAX_RESULT_BITS = 1_000_000  # Largest integer the arithmetic primitives will build
+MAX_SEQUENCE_ITEMS = 10_000  # Longest string / list / tuple they will build
+
+
+# The walker cannot interrupt a primitive once it runs, so the primitives that can build
+# arbitrarily large results from small operands refuse to: 9**9**9 or 'ab' * 10**9 are
+# reported as failures instead of hanging the caller or exhausting memory.
+def _bounded_pow(a: Any, b: Any) -> Any:
+    """operator.pow that refuses integer results larger than MAX_RESULT_BITS bits."""
+    if isinstance(a, int) and isinstance(b, int) and b > 0 and abs(a) > 1:
+        if abs(a).bit_length() * b > MAX_RESULT_BITS:
+            raise OverflowError("Result too large")
+    return operator.pow(a, b)
+
+
+def _bounded_mul(a: Any, b: Any) -> Any:
+    """operator.mul that refuses integers / sequences beyond MAX_RESULT_BITS / MAX_SEQUENCE_ITEMS."""
+    if isinstance(a, int) and isinstance(b, int):
+        if abs(a).bit_length() + abs(b).bit_length() > MAX_RESULT_BITS:
+            raise OverflowError("Result too large")
+    else:
+        for seq, count in ((a, b), (b, a)):
+            if isinstance(seq, (str, bytes, list, tuple)) and isinstance(count, int):
+                if len(seq) * count > MAX_SEQUENCE_ITEMS:
+                    raise OverflowError("Result too large")
+    return operator.mul(a, b)
+
+
+def _bounded_add(a: Any, b: Any) -> Any:
+    """operator.add that refuses concatenations longer than MAX_SEQUENCE_ITEMS."""
+    if isinstance(a, (str, bytes, list, tuple)) and isinstance(b, (str, bytes, list, tuple)):
+        if len(a) + len(b) > MAX_SEQUENCE_ITEMS:
+            raise OverflowError("Result too large")
+    return operator.add(a, b)
+
+
+def _bounded_factorial(n: Any) -> Any:
+    """math.factorial that refuses results larger than (about) MAX_RESULT_BITS bits."""
+    if isinstance(n, int) and n > 1 and n * n.bit_length() > MAX_RESULT_BITS:
+        raise OverflowError("Result too large")
+    return math.factorial(n)
+
 
 class MetabolicPathway(Enum):
     """
@@ -142,13 +184,13 @@ class Mitochondria:
 
     # Safe operators for expression evaluation
     SAFE_OPERATORS = {
-        ast.Add: operator.add,
+        ast.Add: _bounded_add,
         ast.Sub: operator.sub,
-        ast.Mult: operator.mul,
+        ast.Mult: _bounded_mul,
         ast.Div: operator.truediv,
         ast.FloorDiv: operator.floordiv,
         ast.Mod: operator.mod,
-        ast.Pow: operator.pow,
+        ast.Pow: _bounded_pow,
         ast.USub: operator.neg,
         ast.UAdd: operator.pos,
     }
@@ -202,7 +244,7 @@ class Mitochondria:
         'ceil': math.ceil,
         'floor': math.floor,
         'trunc': math.trunc,
-        'factorial': math.factorial,
+        'factorial': _bounded_factorial,
         'gcd': math.gcd,
         'degrees': math.degrees,
         'radians': math.radians,
